@@ -492,7 +492,9 @@ type st4Ref struct {
 	hasNoDigit         bool // "-", ".", "e5": FastParseFloat says number (ingest), strconv.ParseFloat says text (query)
 	hasNanInf          bool // strconv.ParseFloat gives NaN / ±Inf (query), FastParseFloat says text (ingest)
 	hasHexUnd          bool // strconv.ParseFloat gives a finite number for a non-decimal numeral ("0x10", "1_000")
-	firstPresentIsText bool // the first value that is present is a string (group-by min/max get stuck on it)
+	textBeforeNumber   bool // some string precedes some int/float value (a group-by min/max cell holding a string rejects numbers)
+	nStr, nIntFloat    int  // strings of any kind / int and float values
+	repr               bool // every numeric value is exactly a float64 (min/max can be exact)
 }
 
 var st4Two63 = new(big.Int).Lsh(big.NewInt(1), 63)
@@ -507,11 +509,11 @@ func st4IsSmallDyadic(r *big.Rat) bool {
 }
 
 func st4Reference(vals []st4Val) *st4Ref {
-	ref := &st4Ref{absInts: new(big.Int), exact: true, classes: map[string]bool{}, total: len(vals)}
+	ref := &st4Ref{absInts: new(big.Int), exact: true, repr: true, classes: map[string]bool{}, total: len(vals)}
 	maxAbsInt := new(big.Int)
 	for _, v := range vals {
-		if v.kind != 'z' && ref.present == 0 && v.kind == 's' {
-			ref.firstPresentIsText = true
+		if (v.kind == 'i' || v.kind == 'd') && ref.nStr > 0 {
+			ref.textBeforeNumber = true
 		}
 		switch v.kind {
 		case 'z':
@@ -519,6 +521,7 @@ func st4Reference(vals []st4Val) *st4Ref {
 			ref.hasAbsent = true
 		case 'i':
 			ref.present++
+			ref.nIntFloat++
 			r := new(big.Rat).SetInt64(v.i)
 			ref.nums = append(ref.nums, r)
 			a := new(big.Int).Abs(big.NewInt(v.i))
@@ -531,6 +534,7 @@ func st4Reference(vals []st4Val) *st4Ref {
 			}
 		case 'd':
 			ref.present++
+			ref.nIntFloat++
 			r := new(big.Rat).SetFloat64(v.f)
 			ref.nums = append(ref.nums, r)
 			ref.anyFloat = true
@@ -540,6 +544,7 @@ func st4Reference(vals []st4Val) *st4Ref {
 			}
 		case 's':
 			ref.present++
+			ref.nStr++
 			c := st4StrClass(v.s)
 			ref.classes["str-"+c] = true
 			switch c {
@@ -549,6 +554,9 @@ func st4Reference(vals []st4Val) *st4Ref {
 				ref.anyFloat = true
 				if !st4IsSmallDyadic(r) {
 					ref.exact = false
+				}
+				if f, err := strconv.ParseFloat(string(v.s), 64); err != nil || new(big.Rat).SetFloat64(f).Cmp(r) != 0 {
+					ref.repr = false
 				}
 				continue
 			case "fastonly":
@@ -693,7 +701,7 @@ func st4CandsSeg(site string, ref *st4Ref, mergeIsNumLost bool) []st4Cand {
 		{st4SigMergeIsNum, mergeIsNumLost, "sum avg split"},
 		{st4SigSumOvf, ref.absInts.Cmp(st4Two63) >= 0, "sum avg"},
 		{st4SigRangeOvf, rangeOvf, "range"},
-		{st4SigNoDigit, ingest && ref.hasNoDigit, "avg min max range"},
+		{st4SigNoDigit, ingest && ref.hasNoDigit, "sum avg min max range"},
 		{st4SigNanInf, !ingest && ref.hasNanInf, "sum avg min max range"},
 	}
 }
@@ -736,7 +744,7 @@ func st4CheckSeg(site string, ref *st4Ref, der map[string]sutils.CValueEnclosure
 			}
 			w := ref.minmax(isMin)
 			g, ok := der[name]
-			if !ok || st4CVRat(g) == nil || !st4Close(st4CVRat(g), w, !ref.bigMixed, sc) {
+			if !ok || st4CVRat(g) == nil || !st4Close(st4CVRat(g), w, !ref.bigMixed && ref.repr, sc) {
 				fail(name, fmt.Sprintf("%s=%s, mathematical %s of the numeric values=%s", name, st4CVOr(der, name), name, w.RatString()))
 			}
 		}
@@ -817,7 +825,7 @@ func st4CheckRB(site string, ref *st4Ref, n uint64, der map[string]sutils.CValue
 			}
 			w := ref.minmax(isMin)
 			g, ok := der[name]
-			if !ok || st4CVRat(g) == nil || !st4Close(st4CVRat(g), w, !ref.bigMixed, sc) {
+			if !ok || st4CVRat(g) == nil || !st4Close(st4CVRat(g), w, !ref.bigMixed && ref.repr, sc) {
 				fail(name, fmt.Sprintf("%s=%s, mathematical %s of the numeric values=%s", name, st4CVOr(der, name), name, w.RatString()))
 			}
 		}
@@ -835,8 +843,8 @@ func st4CandsRB(ref *st4Ref) []st4Cand {
 		{st4SigSumOvf, ref.absInts.Cmp(st4Two63) >= 0, "sum avg"},
 		{st4SigRecCount, ref.hasAbsent, "count"},
 		{st4SigRecCount, (ref.hasAbsent || len(ref.strs) > 0) && len(ref.nums) > 0, "avg"},
-		{st4SigTextFirst, ref.firstPresentIsText && len(ref.nums) > 0, "min max range"},
-		{st4SigTextFirst, len(ref.strs) > 0 && len(ref.nums) > 0, "split"},
+		{st4SigTextFirst, ref.textBeforeNumber, "min max range"},
+		{st4SigTextFirst, ref.nStr > 0 && ref.nIntFloat > 0, "split"},
 	}
 }
 
@@ -1000,7 +1008,7 @@ func st4Exec(line string) Result {
 		}
 		m := r.(map[string]*structs.SegStats)
 		var all, whole []st4Val
-		isNumLost, decided := false, false
+		isNumLost, decided, pathNums := false, false, 0
 		for _, k := range st4RPNOrder(f[3]) {
 			all = append(all, parts[k]...)
 			// the merged IsNumeric is that of the first part (in merge order) that has the column at all
@@ -1011,6 +1019,7 @@ func st4Exec(line string) Result {
 				}
 				if st4PathNumeric(v, ingest) {
 					numeric++
+					pathNums++
 				}
 			}
 			if !decided && present > 0 {
@@ -1027,7 +1036,7 @@ func st4Exec(line string) Result {
 		res := Result{Out: "M{" + state + "} D{" + d + "}", Nontrivial: st4Nontrivial(ref, len(parts)),
 			Tags: st4Tags(ref, "op:merge-"+f[2], fmt.Sprintf("parts=%d", len(parts)))}
 		site := "merge" + f[2]
-		cands := st4CandsSeg(site, ref, isNumLost && len(ref.nums) > 0)
+		cands := st4CandsSeg(site, ref, isNumLost && pathNums > 0)
 		res.Fails = append(res.Fails, st4CheckSeg(site, ref, der, cands)...)
 		// segmentation independence: merge of the folds of ANY split = fold of the whole list (same adders)
 		dw, _ := st4Derive(fold(whole))
